@@ -1,12 +1,14 @@
 (* Correspondence checker for C24: compares what the Go code did (recorded in
    the case) with what the model computes. *)
-From UV Require Export Base.Common Model.Varint.
+From UV Require Export Base.Common Model.Varint Model.VarintTo.
 
 Inductive obs := OBytes (b : bytes) | OPanic.
 
 Inductive case :=
 | CAppend (x : N) (o : obs) (olen : option N)      (* Append / Len *)
 | CWithLen (x w : N) (o : obs)                      (* AppendWithLen *)
+| CAppendTo (b : bytes) (x : N) (o : obs)           (* Append onto the buffer b: the whole returned slice *)
+| CWithLenTo (b : bytes) (x w : N) (o : obs)        (* AppendWithLen onto the buffer b *)
 | CRead (bs : bytes) (o : option (N * N))           (* Read: value, bytes consumed *)
 | CMarshal (ks : list tp_kind) (o : obs).           (* TransportParameters.Marshal *)
 
@@ -27,6 +29,8 @@ Definition check (c : case) : bool :=
       | _, _ => false
       end
   | CWithLen x w o => obs_matches (append_with_len x w) o
+  | CAppendTo b x o => obs_matches (append_to b x) o
+  | CWithLenTo b x w o => obs_matches (append_with_len_to b x w) o
   | CRead bs o =>
       match read bs, o with
       | Some (v, rest), Some (v', used) => (v =? v') && (N.of_nat (length bs - length rest) =? used)
